@@ -54,7 +54,7 @@ DDL_POSITIONS = {
 }
 OTHER_VALUES = ["0", "-5", "12345678901234567890", "1.5", "-0.25", "1e-07", "D('10.50')", "D('-0.001')", "True", "False",
                 "date(2020, 2, 29)", "dt(2021, 12, 31, 23, 59, 58)", "UUID('12345678-1234-5678-1234-567812345678')",
-                "Dialects.MYSQL", "JoinType.left"]
+                "Dialects.MYSQL", "JoinType.left", "EN.NEG5", "EN.TXT", "EN.QUO", "IE.HIGH", "IE.NEG2", "-0.0", "1e+22"]
 
 
 def counts(tier):
